@@ -143,8 +143,9 @@ def itoa_bytes(v):
 import re as _re
 _FS = _re.compile(r'^_ZNK?St1[34]basic_(fstream|ifstream|ofstream)IcSt11char_traitsIcEE(C[12]|D[012]|4open|5close|7is_open)E(.*)$')
 
+_RX = ('_ZNSt7__cxx1111basic_regexIcNS_12regex_traitsIcEEEC', '_ZNSt7__cxx1111basic_regexIcNS_12regex_traitsIcEEED', '_ZNSt8__detail17__regex_algo_impl')
 def is_forced(name):
-    return name in FORCED or _FS.match(name) is not None or name.startswith('_ZNSt10filesystem7__cxx114pathC') or name.startswith('_ZNSt10filesystem7__cxx114pathD') \
+    return name.startswith(_RX) or name in FORCED or _FS.match(name) is not None or name.startswith('_ZNSt10filesystem7__cxx114pathC') or name.startswith('_ZNSt10filesystem7__cxx114pathD') \
         or name == '_ZN3Opm5EclIO11isFormattedERKNSt7__cxx1112basic_stringIcSt11char_traitsIcESaIcEEE'
 
 
@@ -459,6 +460,52 @@ def builtin(ex, st, fr, name, a, x, work):
         txt = ('%.*f' % (prec, val)) if ff == 0x4 else ('%.*e' % (prec, val)) if ff == 0x100 else ('%.*g' % (prec, val))
         if flags & 0x400 and '.' not in txt and ff == 0: txt += '.'      # showpoint (rarely set)
         insert_padded(ex, st, a[0], mf, list(txt.encode())); return a[0]
+    if name == 'fnmatch':
+        S.add('fnmatch(3) on concrete strings -> Python fnmatch.fnmatchcase (flags 0)')
+        import fnmatch as _fn
+        def cstr(p):
+            out = []
+            for i in range(4096):
+                b = ex.load_val(st, Ptr(p.obj, p.off + i), I8)
+                if not isc(b): raise Violation('unsupported', 'fnmatch on symbolic text', st)
+                if b == 0: break
+                out.append(b)
+            return bytes(out).decode('latin1')
+        return 0 if _fn.fnmatchcase(cstr(a[1]), cstr(a[0])) else 1
+    # ---------------- std::regex on concrete patterns and concrete subject strings: Python's re (ECMAScript subset: classes, groups, quantifiers)
+    if name.startswith('_ZNSt7__cxx1111basic_regexIcNS_12regex_traitsIcEEEC'):
+        S.add('std::regex(const char*) -> pattern kept as text; std::regex_match/regex_search on concrete strings decided with the same pattern by Python re')
+        if 'EPKc' not in name: raise Violation('unsupported', 'std::regex constructor ' + name, st)
+        pat = []
+        for i in range(4096):
+            b = ex.load_val(st, Ptr(a[1].obj, a[1].off + i), I8)
+            if not isc(b): raise Violation('unsupported', 'std::regex with a symbolic pattern', st)
+            if b == 0: break
+            pat.append(b)
+        po = ex.new_obj(st, len(pat) + 1, 'regex-pattern', kind='zero')
+        for i, b in enumerate(pat): st.objs[po].cells[i] = (1, b)
+        for k in range(0, 32, 8): ex.store_val(st, Ptr(a[0].obj, a[0].off + k), I64, 0)
+        ex.store_val(st, a[0], PTR(I8), Ptr(po, 0)); return 0
+    if name.startswith('_ZNSt7__cxx1111basic_regexIcNS_12regex_traitsIcEEED'): return 0
+    if name.startswith('_ZNSt8__detail17__regex_algo_impl'):
+        import re as _pyre
+        def text_of(p0, p1):
+            if p0.obj != p1.obj or not (isc(p0.off) and isc(p1.off)): raise Violation('unsupported', 'regex subject range', st)
+            out = []
+            for i in range(p0.off, p1.off):
+                b = ex.load_val(st, Ptr(p0.obj, i), I8)
+                if not isc(b): raise Violation('unsupported', 'regex match on symbolic text', st)
+                out.append(b)
+            return bytes(out).decode('latin1')
+        subj = text_of(a[0], a[1]); rx = a[3]
+        pp = ex.load_val(st, rx, PTR(I8)); pat = []
+        for i in range(4096):
+            b = ex.load_val(st, Ptr(pp.obj, pp.off + i), I8)
+            if b == 0: break
+            pat.append(b)
+        pat = bytes(pat).decode('latin1'); match_mode = a[-1]
+        m = _pyre.fullmatch(pat, subj) if (match_mode is True or match_mode == 1) else _pyre.search(pat, subj)
+        return bool(m)
     if name in ('_ZNKSt12__basic_fileIcE7is_openEv',):
         S.add('std::basic_filebuf::is_open -> bound memfile is open'); return bool(mf_get(st, fid_of(st, a[0])).get('open', True))
     if name in ('_ZNSt9basic_iosIcSt11char_traitsIcEE5clearESt12_Ios_Iostate',):
